@@ -27,6 +27,7 @@ import (
 
 	"verif/harness/vclient"
 	"verif/harness/vk"
+	"verif/harness/vrtc"
 	"verif/harness/vsrv"
 )
 
@@ -414,6 +415,78 @@ func wsStorm(run *vk.Run, a childArgs) {
 	run.Count("ws_storm_ops", ops.Load())
 }
 
+// ---- workload (e): real PeerConnections being created and torn down under a stats poller ---
+
+func rtcStorm(run *vk.Run, a childArgs) {
+	srv, err := vsrv.Start(vsrv.Config{Root: os.Getenv("VERIF_CHILD_DIR"), LogToFile: true})
+	if err != nil {
+		run.Inconclusive("server start: " + err.Error())
+		return
+	}
+	srv.WriteGroup("r1", groupDesc(nil))
+	stop := make(chan struct{})
+	var pwg sync.WaitGroup
+	var ops atomic.Int64
+	for p := 0; p < 2; p++ {
+		pwg.Add(1)
+		go func() {
+			defer pwg.Done()
+			for {
+				select {
+				case <-stop:
+					return
+				default:
+				}
+				srv.Do("GET", "/galene-api/v0/.stats", srv.AdminAuth(), nil)
+				ops.Add(1)
+			}
+		}()
+	}
+	var wg sync.WaitGroup
+	for w := 0; w < 4; w++ {
+		wg.Add(1)
+		go func(w int) {
+			defer wg.Done()
+			r := run.Rand(6, a.Index, uint64(w))
+			id := fmt.Sprintf("rtc%d-%d", a.Index, w)
+			c, err := vclient.Dial(srv, id)
+			if err != nil {
+				return
+			}
+			defer c.Close()
+			peer := vrtc.NewPeer(c)
+			defer peer.Shutdown()
+			if m, ok := c.Join("r1", "pres1", "pw-pres1"); !ok || m.Str("kind") != "join" {
+				return
+			}
+			c.Send(vclient.Msg{"type": "request", "request": map[string]any{"": []string{"audio", "video"}}})
+			for i := 0; i < a.Iter/300+2; i++ {
+				sid := fmt.Sprintf("%s-s%d", id, i)
+				run.Note(fmt.Sprintf("%s publishes %s", id, sid))
+				up, err := peer.Publish(sid, "camera", []vrtc.TrackSpec{{Kind: "audio", ID: "a0"}, {Kind: "video", ID: "v0"}}, "")
+				if err != nil {
+					continue
+				}
+				if up.Wait(15*time.Second) == "connected" {
+					for k := 0; k < 30; k++ {
+						up.Track("a0").Local.WriteRTP(vrtc.OpusPacket(uint16(k), uint32(k)*960, uint32(k)))
+						up.Track("v0").Local.WriteRTP(vrtc.VP8Packet(uint16(k), uint32(k)*3000, uint16(k), 0, k == 0, uint32(k), 30))
+						time.Sleep(5 * time.Millisecond)
+					}
+				}
+				time.Sleep(time.Duration(r.IntN(300)) * time.Millisecond)
+				up.Close()
+				ops.Add(1)
+			}
+		}(w)
+	}
+	wg.Wait()
+	close(stop)
+	pwg.Wait()
+	run.Eval(ops.Load())
+	run.Count("rtc_storm_ops", ops.Load())
+}
+
 // ---- queue semantics: unbounded.Channel -------------------------------------------------
 
 type item struct {
@@ -541,6 +614,8 @@ func child(mode string) {
 		wsStorm(run, a)
 	case "queue":
 		queueCase(run, a)
+	case "rtc":
+		rtcStorm(run, a)
 	}
 	ev, edges, per := vsync.Stats()
 	run.Count("lock_events", ev)
@@ -578,6 +653,7 @@ func main() {
 		jobs = append(jobs, job{"disk", childArgs{uint64(i), iter, p}})
 		jobs = append(jobs, job{"ws", childArgs{uint64(i), iter, p}})
 		jobs = append(jobs, job{"queue", childArgs{uint64(i), iter, []int{30, 60, 90}[i%3]}})
+		jobs = append(jobs, job{"rtc", childArgs{uint64(i), iter, []int{30, 0, 60}[i%3]}})
 	}
 	for i := 0; i < 3; i++ {
 		jobs = append(jobs, job{"shutdown", childArgs{uint64(i), 1, 0}})
@@ -685,6 +761,7 @@ func main() {
 	run.FloorCounter("api_storm_ops", 1000)
 	run.FloorCounter("whip_storm_ops", 1000)
 	run.FloorCounter("ws_storm_ops", 100)
+	run.FloorCounter("rtc_storm_ops", 20)
 	run.FloorCounter("lock_events", 10000)
 	run.FloorCounter("queue_items_drained_exactly_once", 1000)
 	run.Assume("race reports decide C13 only when one of the two accesses lies in an anchor file of the property; lock-order cycles are listed as candidates and only an actual wait-for cycle is a deadlock verdict")
